@@ -74,7 +74,7 @@ def main():
         req = json.loads(line)
         if req['cmd'] == 'replay':
             r = replay(req)
-        elif req['cmd'] in ('schemas', 'lemma', 'expr'):
+        elif req['cmd'] in ('schemas', 'lemma', 'expr', 'taut', 'resolve'):
             import lemmas
             r = lemmas.handle(req)
         else:
